@@ -273,6 +273,13 @@ cdef RadialSolverSolution cf_radial_solver(
         
         # Ensure that no errors occured during the non-dim process
         if isnan(radius_planet_to_use) or isnan(bulk_density_to_use) or isnan(frequency_to_use) or isnan(G_to_use):
+            if nondimensionalize:
+                # Restore the caller's arrays (they were non-dimensionalized in place above) before leaving.
+                cf_redimensionalize_physicals(
+                    total_slices, frequency, radius_planet, planet_bulk_density,
+                    radius_array_ptr, density_array_ptr, gravity_array_ptr, bulk_modulus_array_ptr,
+                    complex_shear_modulus_array_ptr,
+                    &radius_planet_to_use, &bulk_density_to_use, &frequency_to_use, &G_to_use)
             raise ValueError('NaNs encountered after non-dimensionalize call.')
     else:
         # Leave inputs alone.
@@ -307,6 +314,13 @@ cdef RadialSolverSolution cf_radial_solver(
         # Use user input
         num_ytypes = len(solve_for)
         if num_ytypes > max_num_solutions:
+            if nondimensionalize:
+                # Restore the caller's arrays (they were non-dimensionalized in place above) before leaving.
+                cf_redimensionalize_physicals(
+                    total_slices, frequency, radius_planet, planet_bulk_density,
+                    radius_array_ptr, density_array_ptr, gravity_array_ptr, bulk_modulus_array_ptr,
+                    complex_shear_modulus_array_ptr,
+                    &radius_planet_to_use, &bulk_density_to_use, &frequency_to_use, &G_to_use)
             raise AttributeError(f'Unsupported number of solvers requested (max is {max_num_solutions}).')
         
         # Parse user input for the types of solvers that should be used.
@@ -325,6 +339,13 @@ cdef RadialSolverSolution cf_radial_solver(
                 bc_pointer[ytype_i * 3 + 1] = 0.
                 bc_pointer[ytype_i * 3 + 2] = 0.
             else:
+                if nondimensionalize:
+                    # Restore the caller's arrays (they were non-dimensionalized in place above) before leaving.
+                    cf_redimensionalize_physicals(
+                        total_slices, frequency, radius_planet, planet_bulk_density,
+                        radius_array_ptr, density_array_ptr, gravity_array_ptr, bulk_modulus_array_ptr,
+                        complex_shear_modulus_array_ptr,
+                        &radius_planet_to_use, &bulk_density_to_use, &frequency_to_use, &G_to_use)
                 raise NotImplementedError(f'Requested solver, {solver_name}, has not been implemented.\n\tSupported solvers are: tidal, loading, free.')
 
     # Integration information
@@ -421,6 +442,15 @@ cdef RadialSolverSolution cf_radial_solver(
             else:
                 layer_slices += 1
         if layer_slices <= 3:
+            if nondimensionalize:
+                # Restore the caller's arrays (they were non-dimensionalized in place above) before leaving.
+                cf_redimensionalize_physicals(
+                    total_slices, frequency, radius_planet, planet_bulk_density,
+                    radius_array_ptr, density_array_ptr, gravity_array_ptr, bulk_modulus_array_ptr,
+                    complex_shear_modulus_array_ptr,
+                    &radius_planet_to_use, &bulk_density_to_use, &frequency_to_use, &G_to_use)
+            PyMem_Free(layer_int_data_ptr)
+            layer_int_data_ptr = NULL
             raise ValueError('At least three layer slices per layer are required. Try using more slices in the' + \
                              'input arrays.')
         num_slices_by_layer_ptr[layer_i] = layer_slices
@@ -1250,6 +1280,10 @@ def radial_solver(
         else:
             layer_types_ptr[i] = -1
             log.error(f"Layer type {layer_type} is not supported. Currently supported types: 'solid', 'liquid'.")
+            PyMem_Free(layer_assumptions_ptr)
+            layer_assumptions_ptr = NULL
+            PyMem_Free(upper_radius_by_layer_ptr)
+            upper_radius_by_layer_ptr = NULL
             raise UnknownModelError(f"Layer type {layer_type} is not supported. Currently supported types: 'solid', 'liquid'.")
     
     # Check for dynamic liquid layer stability
@@ -1275,6 +1309,10 @@ def radial_solver(
         integration_method_int = 2
     else:
         log.error(f"Unsupported integration method provided: {integration_method_lower}.")
+        PyMem_Free(layer_assumptions_ptr)
+        layer_assumptions_ptr = NULL
+        PyMem_Free(upper_radius_by_layer_ptr)
+        upper_radius_by_layer_ptr = NULL
         raise UnknownModelError(f"Unsupported integration method provided: {integration_method_lower}.")
 
     # Prepare to run
